@@ -276,6 +276,11 @@ func (s *Session) Check(final bool, extra ...*sym.Term) Result {
 			}
 		}
 	}
+	if res == Unknown {
+		if d := os.Getenv("VRF_DUMP_UNKNOWN"); d != "" {
+			os.WriteFile(fmt.Sprintf("%s/unknown-%d-%d.smt2", d, os.Getpid(), s.mark), []byte(s.Script()+"(check-sat)\n"), 0o644)
+		}
+	}
 	if needScope && res != Sat {
 		s.Pop()
 	} else if needScope {
